@@ -55,7 +55,7 @@ RULE = ("corpus = valid encodings made by the library itself (SM2 and RSA certif
         "tickets, GM key-exchange bodies); from each: every truncation, every byte replaced by {00,01,7f,80,ff,b^1,b^80}, every TLV length "
         "rewritten to {0,len-1,len+1,0x80,0x84ffffffff}, every TLV tag swapped among 11 universal tags (quick tier: TLV rewrites all, the "
         "rest sampled at a fixed stride per base; thorough: all), empty input, random strings; handshake messages additionally get structure-aware mutants (harness/cmd/c18/tlstree.go: the message is parsed into its tree of length-prefixed vectors; the content of each vector becomes empty / 1 / 2 bytes / one shorter / one longer, list elements and extensions move first / last / alone, are duplicated or dropped, extensions of every known and of unknown types are inserted with tiny bodies, every enclosing length recomputed); BER nesting 1..200 through the model and "
-        "1000/10000 (definite and indefinite), 20000 siblings, the repaired overlap family through the implementation; certificate / CSR / CRL shapes with every extension parseCertificate knows (hand-made values for all its branches, DSA / RSA keys assembled by hand, CSR with extension request, CRL with entry extensions) and every extension value mutated on its own inside a correctly encoded, signed certificate (harness/cmd/c18/certshapes.go); size ladders per decoder and shape for the relative cost (op LAD, harness/cmd/c18/ladder.go: growth exponent of CPU time and allocation above 1.7 is a failure; quick: six ladders to 100 KB rotating with the seed, thorough: 22 to 3 MB); op A1G: every element at any depth of every DER object of the corpus is offered to each of the 75 Go root types, accepted ones (largest first) are bases for the same mutations, plus crafted families (harness/cmd/c18/asn1schemas.go). A case is "
+        "1000/10000 (definite and indefinite), 20000 siblings, the repaired overlap family through the implementation; certificate / CSR / CRL shapes with every extension parseCertificate knows (hand-made values for all its branches, DSA / RSA keys assembled by hand, CSR with extension request, CRL with entry extensions) and every extension value mutated on its own inside a correctly encoded, signed certificate (harness/cmd/c18/certshapes.go); cold start (op COLD, harness/cmd/c18/cold.go): one call of each decoder family on a valid, a damaged and a halved input, and the compressed-point forms, each in a fresh re-executed child process that has built no key and no corpus before; size ladders per decoder and shape for the relative cost (op LAD, harness/cmd/c18/ladder.go: growth exponent of CPU time and allocation above 1.7 is a failure; quick: six ladders to 100 KB rotating with the seed, thorough: 22 to 3 MB); op A1G: every element at any depth of every DER object of the corpus is offered to each of the 75 Go root types, accepted ones (largest first) are bases for the same mutations, plus crafted families (harness/cmd/c18/asn1schemas.go). A case is "
         "non-trivial when its input is non-empty; distinct = distinct case text")
 
 MODELLED = {"BER", "UNP", "PAD", "SDG", "CUM", "CMA", "DCP", "P8E", "SKP", "HPU", "HPR", "SSU", "CRQ", "KXC", "KXS", "KXE",
@@ -66,7 +66,7 @@ GATED = {"SDG", "DCP", "P8E", "KXC", "KXS", "KXE"}   # the model decides only th
 def _input(f):
     if f[0] == "D":
         return f[3]
-    if f[0] in ("UNP", "PAD", "SDG", "A1G"):
+    if f[0] in ("UNP", "PAD", "SDG", "A1G", "COLD"):
         return f[3]
     return f[2]
 
@@ -94,11 +94,15 @@ def predicate(f, io):
     if io[0] in ("SLOW", "HANG") and _excluded(f):
         return True, ""
     if io[0] == "PANIC":
+        if f[0] == "COLD":
+            return False, "decoder %s panicked as the first operation of a fresh process (%s)" % (f[2], " ".join(io[1:])[:200])
         return False, "decoder panicked"
     if io[0] == "HANG":
         return False, "decoder did not return within 10 s"
     if io[0] == "SLOW":
         return False, "decoder took " + " ".join(io[1:]) + " on an input of %d bytes" % (len(_input(f)) // 2)
+    if io[0] == "COLDDIFF":
+        return False, "decoder %s answers differently as the first operation of a fresh process: %s" % (f[2], " ".join(io[1:]))
     if io[0] == "SUPERLINEAR":
         return False, "decoder cost grows faster than its input (size ladder %s): %s" % (f[2], " ".join(io[1:]))
     if io[0] == "ALLOC":
